@@ -555,6 +555,10 @@ def finish(prop, tier, seed, mode, pr, binary, th, lines, problems, known, t0):
         print('rules never applicable: ' + ', '.join(never))
     if reported:
         return 1
+    # a measurement that never saw anything cannot certify "nothing left": fail loudly (exit 2)
+    for name in pr.get('required_probes', []):
+        if agg['probes'].get(name, 0) == 0:
+            problems.append('reach probe %r was never hit in %d runs: the measurement of this check is vacuous on this tree (e.g. the state it reads by reflection is no longer reachable)' % (name, n))
     if problems or internal:
         for p in problems:
             print('PROBLEM ' + p)
